@@ -3436,7 +3436,7 @@ func (c *compiler) emitArrayPattern(pattern *ast.ArrayPattern, emitAssign func(t
 	for _, elt := range pattern.Elements {
 		switch elt := elt.(type) {
 		case nil:
-			c.emit(iterGetNextOrUndef{}, pop)
+			c.emit(iterSkipNext{})
 		case *ast.AssignExpression:
 			c.emitAssign(elt.Left, c.compilePatternInitExpr(func() {
 				c.emit(iterGetNextOrUndef{})
